@@ -15,6 +15,7 @@ from .. import pollute
 from ..argvcorpus import realistic, small, TRANSFORMATIONS
 from ..cliharness import cli_formula
 
+PYTHON_O_STRIDE = {"quick": 4, "thorough": 2}      # every n-th case is repeated in an interpreter started with -O
 RULE = ("every family at realistic sizes (php 30x25, gphp on 40x30 left-regular graphs, bphp 20x13, rphp 6 7 8, count 12 3, "
         "matching/tseitin/ec on 40-vertex graphs, subsetcard, cliquecoloring 8 4 3, kcolor, domset, tiling, iso, subgraph, "
         "kclique/kcliquebin, ramlb, op 12 in five variants, peb/stone on pyramids, cpls, pitfall, ram, vdw, ptn, randkcnf/xor) "
